@@ -126,7 +126,10 @@ def float_norm(words):
             except (ValueError, OverflowError):
                 pass
         elif w[:1] == "n" and w[1:3] in ("0x", "0X"):
-            w = "n%d" % int(w[1:], 16)
+            try:
+                w = "n%d" % int(w[1:], 16)
+            except ValueError:          # not a number after all (e.g. the bare word 0x of a mis-printed identifier)
+                pass
         prev = w
         out.append(w)
     return out
@@ -156,6 +159,11 @@ def reparse_cause(msg, text):
     if re.match(r"\(import ", line):
         return "import-name:go-quoting"
     if re.match(r"\(func \d", line) or re.search(r"\((param|local) \d+ ", line) or re.match(r"\((global|memory|table|type) \d+[a-zA-Z_.$]", line):
+        # names consisting ONLY of digits are indistinguishable from indices once the scanner has stripped the `$`
+        # (recorded finding); a name that merely starts with a digit must keep its `$` (repaired in /repo: e4be0b8)
+        names = re.findall(r"\((?:func|global|memory|table|type|param|local) (\d[^ ()]*)", line)
+        if names and all(n.isdigit() for n in names):
+            return "ident:all-digit-name-printed-as-index"
         return "ident:digit-prefix-printed-as-index"
     w = re.match(r"\(?([A-Za-z_.0-9]+)", line)
     return "reparse-fails:other:" + (w.group(1) if w else "?")
